@@ -395,8 +395,15 @@ int register_mod_src(m_mod_t *mod, m_src_types type, const void *src_data,
             if (ret == 0 && src->type == M_SRC_TYPE_TASK) {
                 ret = start_task(c, src);
             }
+            if (ret != 0) {
+                /* A source that cannot be polled must not stay registered */
+                const int err = errno;
+                poll_set_new_evt(&c->ppriv, src, RM);
+                m_bst_remove(mod->srcs[type], src);
+                return err ? -err : ret;
+            }
         }
-        return !ret ? 0 : -errno;
+        return 0;
     }
     m_mem_unref(src);
     return ret;
